@@ -405,6 +405,21 @@ func init() {
 		return Ptr{A: b, I: 0}
 	})
 
+	// ---- socket syscalls: routed to harness-side stubs (vSys*) when the harness defines them ----
+	route := func(stub string) Intrinsic {
+		return func(r *Run, caller *frame, fn *ssa.Function, args []Value) Value {
+			for p := range r.E.harnessPkgs {
+				if f := p.Func(stub); f != nil {
+					return r.callFn(f, args, nil, caller)
+				}
+			}
+			panic(unsupported("syscall without harness stub: " + fn.String()))
+		}
+	}
+	reg("syscall.Sendto", route("vSysSendto"))
+	reg("syscall.Recvfrom", route("vSysRecvfrom"))
+	reg("syscall.Close", route("vSysClose"))
+
 	// ---- os ----
 	reg("os.NewFile", func(r *Run, _ *frame, _ *ssa.Function, args []Value) Value { return Poison{"os.NewFile"} })
 	reg("syscall.Getrlimit", func(r *Run, _ *frame, _ *ssa.Function, args []Value) Value {
